@@ -28,7 +28,8 @@ Next == /\ l <= N
         /\ rr' = IF l + 1 <= N THEN ResR(Trace[l + 1]) ELSE <<>>
 Spec == Init /\ [][Next]_vars
 
-Ok(S, why) == S = {} \/ PrintT(<<"REJECT", l, why>>)
+Dbg == "C02DEBUG" \in DOMAIN IOEnv     \* development aid: print the offending indices
+Ok(S, why) == S = {} \/ (PrintT(<<"REJECT", l, why>>) /\ (IF Dbg THEN PrintT(<<"DETAIL", why, S>>) ELSE TRUE))
 
 \* token level: a name of the keep output became a keyword token in the shortened output
 LexReserved(e) == /\ Len(e.tk) = Len(e.tr)
